@@ -834,12 +834,19 @@ class Engine:
     def run_steps(self) -> None:
         """Run all the steps in the simulation."""
         layers = self._step_graph.get_execution_layers()
+        # The steps that exist when the phase begins. A step created
+        # during the phase first runs in the next one, also when it was
+        # created under the path of a step that a previous step of this
+        # phase moved away or deleted.
+        scheduled = {
+            path: self._step_paths.get(path)
+            for layer in layers for path in layer}
         for layer in layers:
             deferred_updates: List[Tuple[Defer, Store]] = []
             for path in layer:
                 step = self._step_paths.get(path)
-                if not step:
-                    # Step was deleted by a previous step.
+                if not step or step is not scheduled[path]:
+                    # Step was deleted (or replaced) by a previous step.
                     continue
                 # Timestep shouldn't influence steps.
                 # TODO(jerry): Do something cleaner than having
